@@ -589,6 +589,17 @@ impl endpoint::Session for Session {
         let _ = self.session_stop_reason.set(reason);
     }
 
+    fn abandon_pending_deliveries(&mut self) {
+        for relay in self.link_by_input_handle.values() {
+            relay.abandon_pending_deliveries();
+        }
+        for pending in self.link_by_name.values() {
+            if let Some(relay) = pending {
+                relay.abandon_pending_deliveries();
+            }
+        }
+    }
+
     fn session_stop_reason(&self) -> &Arc<OnceLock<SessionStopReason>> {
         &self.session_stop_reason
     }
